@@ -179,10 +179,13 @@ Definition step (s : store) (c : cmd) : store * out :=
       (* econf_writeFile, then econf_readFile of that file with the object's own tags *)
       match sget s src with
       | Some kf =>
-          let r := read_bytes (mkPopts false false) [kf_delim kf] [kf_comment kf] (write_model kf) in
+          (* the tags as C strings: a NUL tag is the empty string *)
+          let dls := if kf_delim kf =? 0 then [] else [kf_delim kf] in
+          let cms := if kf_comment kf =? 0 then [] else [kf_comment kf] in
+          let r := read_bytes (mkPopts false false) dls cms (write_model kf) in
           match r_err r with
           | ECONF_SUCCESS =>
-              (sput s dst (keyfile_of_read new_empty (bs "/_out/w.conf") [kf_delim kf] [kf_comment kf] r),
+              (sput s dst (keyfile_of_read new_empty (bs "/_out/w.conf") dls cms r),
                OParse ECONF_SUCCESS (r_lines r) [])
           | e => (sdel s dst, OParse e (r_lines r) (bs "/_out/w.conf"))
           end
